@@ -66,7 +66,7 @@ struct Step {
     bytes: Vec<u8>,
 }
 
-fn fresh(cfg: &Cfg) -> Generator {
+pub(crate) fn fresh(cfg: &Cfg) -> Generator {
     let mut g = build_generator(cfg, Some(0));
     let mut rng = ChaCha8Rng::seed_from_u64(0);
     let mut src = GenerationSource::Rand(&mut rng);
@@ -81,7 +81,7 @@ pub const SRC_EMPTY: u64 = u64::MAX - 2;
 /// SRC_EMPTY - 1 - b = fuzzer input of 256 bytes that are all b (b in 0..=255)
 pub const SRC_CONST_LOW: u64 = u64::MAX - 2 - 256;
 
-fn force(g: &mut Generator, op: OpcodeKind, seed: u64) -> Result<Vec<u8>, String> {
+pub(crate) fn force(g: &mut Generator, op: OpcodeKind, seed: u64) -> Result<Vec<u8>, String> {
     tick(|| format!("forced emission of opcode 0x{:02x} with entropy source {} on stack {:?}", op.as_u8(), seed, g.verif_stack_kinds()));
     let before = g.output.len();
     let r = if seed >= SRC_CONST_LOW {
